@@ -74,6 +74,8 @@ Proof.
   - destruct e; try reflexivity. cbn [ok_cexpr]. destruct (assoc x FT) as [[ps0 b0]|]; [|reflexivity]. now rewrite Hl.
   - cbn [ok_cexpr]. destruct SP; [|reflexivity]. now rewrite Hl.
 Qed.
+Lemma ok_expr_rhs : forall B e, ok_expr B e = true -> ok_rhs B e = true.
+Proof. intros B e H. unfold ok_rhs. rewrite ok_cexpr_eq, H. reflexivity. Qed.
 Fixpoint ok_stmt (il : bool) (B : list str) (s : stmt) {struct s} : bool :=
   let fix okb (il : bool) (B : list str) (l : list stmt) {struct l} : bool :=
     match l with [] => true | s :: l => ok_stmt il B s && okb il (after B s) l end in
@@ -89,7 +91,8 @@ Fixpoint ok_stmt (il : bool) (B : list str) (s : stmt) {struct s} : bool :=
   | SIfElif c b n => ok_rhs (B ++ CD) c && okb il B b && ok_stmt il B n
   | SWhile c b => ok_rhs (B ++ CD) c && okb true B b
   | SFrom a b _ st nm collide body =>
-    ok_expr (B ++ CD) a && ok_expr (B ++ CD) b &&
+    (* the lower bound may contain calls; the upper bound (which the VM evaluates AFTER it has bound the counter) may not *)
+    ok_rhs (B ++ CD) a && ok_expr (B ++ CD) b &&
     match nm, collide with
     | Some x, false =>   (* a fresh counter: a variable of the enclosing block for the duration of the loop *)
       src_nameb x && negb (mem_str x (fnames FT)) && negb (mem_str x B) && negb (mem_str x (used_e b)) && step_ok ((x :: B) ++ CD) st && okb true (x :: B) body
@@ -116,7 +119,7 @@ Proof. reflexivity. Qed.
 Lemma ok_SWhile : forall il B c b, ok_stmt il B (SWhile c b) = ok_rhs (B ++ CD) c && ok_block true B b.
 Proof. reflexivity. Qed.
 Lemma ok_SFrom : forall il B a b incl st nm collide body, ok_stmt il B (SFrom a b incl st nm collide body) =
-  ok_expr (B ++ CD) a && ok_expr (B ++ CD) b &&
+  ok_rhs (B ++ CD) a && ok_expr (B ++ CD) b &&
   match nm, collide with
   | Some x, false => src_nameb x && negb (mem_str x (fnames FT)) && negb (mem_str x B) && negb (mem_str x (used_e b)) && step_ok ((x :: B) ++ CD) st && ok_block true (x :: B) body
   | Some x, true => src_nameb x && negb (mem_str x (fnames FT)) && mem_str x B && match used_e b with [] => true | _ => false end && step_ok (B ++ CD) st && ok_block true B body
@@ -248,7 +251,7 @@ Fixpoint sitems (c : nat) (lr : nat) (sl : option nat) (s : stmt) {struct s} : l
     let cstep := step_code c step ++ [I OP_BIN_OP_ASSIGN [[43; 61]%N; x]] in
     let full0 := cbody ++ cstep in
     let full := full0 ++ [I OP_JMP_POP [neg_off (1 + length cond + length full0)]] in
-    map CI (pcode c a) ++ [I (if collide then OP_STORE else OP_STORE_FAST) [x]] ++ map CI (pcode c b) ++ [I OP_STORE_FAST [endr]] ++ cond
+    map CI (xcode c a) ++ [I (if collide then OP_STORE else OP_STORE_FAST) [x]] ++ map CI (xcode c b) ++ [I OP_STORE_FAST [endr]] ++ cond
       ++ [I OP_WHILE_LOOP [sN (length full + 1)]] ++ resolve (length full) (length cstep) 0 full
       ++ (if collide then [] else [I OP_DELETE_NAME_SCOPED [x; endr]])
   | SBreak => [CBrk (match sl with Some n => n | None => 0 end)]
@@ -293,7 +296,7 @@ Lemma sitems_SFrom : forall c lr sl a b incl step nm collide body, sitems c lr s
   let cstep := step_code c step ++ [I OP_BIN_OP_ASSIGN [[43; 61]%N; x]] in
   let full0 := cbody ++ cstep in
   let full := full0 ++ [I OP_JMP_POP [neg_off (1 + length cond + length full0)]] in
-  map CI (pcode c a) ++ [I (if collide then OP_STORE else OP_STORE_FAST) [x]] ++ map CI (pcode c b) ++ [I OP_STORE_FAST [endr]] ++ cond
+  map CI (xcode c a) ++ [I (if collide then OP_STORE else OP_STORE_FAST) [x]] ++ map CI (xcode c b) ++ [I OP_STORE_FAST [endr]] ++ cond
     ++ [I OP_WHILE_LOOP [sN (length full + 1)]] ++ resolve (length full) (length cstep) 0 full
     ++ (if collide then [] else [I OP_DELETE_NAME_SCOPED [x; endr]]).
 Proof. reflexivity. Qed.
@@ -473,10 +476,10 @@ Proof.
                                 = (step_code c step, stx)).
     { intros stx. destruct step as [e|]; [|reflexivity]. cbn [step_ok] in Hst. cbn [step_code]. now rewrite (cexpr_ok B'). }
     destruct nm as [x|].
-    + cbn [from_idn from_lr1]. rewrite (cexpr_ok (B ++ CD)) by assumption. rewrite (cexpr_ok (B ++ CD)) by assumption.
+    + cbn [from_idn from_lr1]. rewrite (cexpr_rhs FT SP (B ++ CD)) by assumption. rewrite (cexpr_rhs FT SP (B ++ CD)) by exact (ok_expr_rhs FT SP _ _ Hob).
       cbv zeta. rewrite (cblockT_frag c body Hbody FT SP CD true B'' _ _) by assumption. cbn [lreg fid fbuf].
       rewrite Hstep. cbn [lreg fid fbuf]. rewrite Est1. reflexivity.
-    + cbn [from_idn from_lr1]. rewrite (cexpr_ok (B ++ CD)) by assumption. rewrite (cexpr_ok (B ++ CD)) by assumption.
+    + cbn [from_idn from_lr1]. rewrite (cexpr_rhs FT SP (B ++ CD)) by assumption. rewrite (cexpr_rhs FT SP (B ++ CD)) by exact (ok_expr_rhs FT SP _ _ Hob).
       cbv zeta. cbn [lreg fid fbuf]. rewrite (cblockT_frag c body Hbody FT SP CD true B'' _ _) by assumption. cbn [lreg fid fbuf].
       rewrite Hstep. cbn [lreg fid fbuf]. rewrite Est2. reflexivity.
   - intros FT SP CD il B sl st H. reflexivity.
